@@ -5,7 +5,7 @@ from common import *
 import procgen as pg
 
 PROP_MODULES = ["HvsrVerif.Props.C17", "HvsrVerif.Props.C17Inv", "HvsrVerif.Props.C17Deriv"]
-BRIDGE_MODULES = []
+BRIDGE_MODULES = ["HvsrVerif.Bridge.PyPsd"]
 
 
 def gen_case(rng, i):
